@@ -245,21 +245,146 @@ fn c13_get_contract() {
     kani::cover!(got == Some(0) && s.len == 1);
 }
 
-/// encode `s` into a stack buffer, return (buffer, bytes written)
-fn encode_to_array(s: &Settings) -> ([u8; 136], usize) {
-    let mut arr = [0u8; 136];
+// ------------------------------------------------------------------------------------------------
+// encode.  A fully symbolic 8-entry list written into a real `&mut [u8]` puts 18 varints at symbolic
+// offsets and does not finish (> 40 min, measured).  So the general contract is checked through a
+// recording sink: `Settings::encode` performs exactly one `put_u8/u16/u32/u64` per varint (proved: every
+// other BufMut entry point of the sink is `unreachable`), the sink keeps the k-th put in slot k (concrete
+// index), and each slot is compared with `spec_varint_enc` of the value the RFC puts there.  The real
+// `&mut [u8]` sink is used for lists of <= 2 entries below and for the Config-level harnesses in
+// kani/h3/src/config.rs (ids concrete), where an independent SETTINGS parser reads the bytes back.
+// Assumed below the function: `BufMut::put_uN` appends the N big-endian bytes (the documented `bytes`
+// contract; `VarInt::encode` on the real `&mut [u8]` is C16's c16_encode_matches_spec).
+
+const SINK_SLOTS: usize = 2 + 2 * SETTINGS_LEN;
+struct PutSink {
+    slot: [([u8; 8], usize); SINK_SLOTS],
+    n: usize,
+}
+impl PutSink {
+    fn new() -> Self {
+        PutSink { slot: [([0u8; 8], 0); SINK_SLOTS], n: 0 }
+    }
+    fn rec(&mut self, v: u64, len: usize) {
+        // big-endian, by division (not to_be_bytes)
+        let mut b = [0u8; 8];
+        let mut x = v;
+        let mut i = len;
+        while i > 0 {
+            i -= 1;
+            b[i] = (x % 256) as u8;
+            x /= 256;
+        }
+        assert!(self.n < SINK_SLOTS);
+        self.slot[self.n] = (b, len);
+        self.n += 1;
+    }
+}
+unsafe impl BufMut for PutSink {
+    fn remaining_mut(&self) -> usize {
+        usize::MAX
+    }
+    unsafe fn advance_mut(&mut self, _cnt: usize) {
+        unreachable!("Settings::encode must only use put_u8/16/32/64")
+    }
+    fn chunk_mut(&mut self) -> &mut bytes::buf::UninitSlice {
+        unreachable!("Settings::encode must only use put_u8/16/32/64")
+    }
+    fn put_slice(&mut self, _src: &[u8]) {
+        unreachable!("Settings::encode must only use put_u8/16/32/64")
+    }
+    fn put_u8(&mut self, n: u8) {
+        self.rec(n as u64, 1)
+    }
+    fn put_u16(&mut self, n: u16) {
+        self.rec(n as u64, 2)
+    }
+    fn put_u32(&mut self, n: u32) {
+        self.rec(n as u64, 4)
+    }
+    fn put_u64(&mut self, n: u64) {
+        self.rec(n, 8)
+    }
+}
+
+macro_rules! for8 {
+    ($i:ident, $body:block) => {{
+        { let $i: usize = 0; $body }
+        { let $i: usize = 1; $body }
+        { let $i: usize = 2; $body }
+        { let $i: usize = 3; $body }
+        { let $i: usize = 4; $body }
+        { let $i: usize = 5; $body }
+        { let $i: usize = 6; $body }
+        { let $i: usize = 7; $body }
+    }};
+}
+
+fn assume_encodable(s: &Settings) {
+    // precondition of encode: every stored id and value is a varint (< 2^62) — `VarInt::from_u64(..).unwrap()`
+    for8!(i, {
+        if i < s.len {
+            kani::assume(s.entries[i].0 .0 < TWO62 && s.entries[i].1 < TWO62);
+        }
+    });
+}
+
+// vp: props=C13,C14,C06; tag=C13.encode; kind=complete; tier=quick
+// encode, any list of 0..=8 pairs with ids / values < 2^62: the frame is
+//   varint(0x04) varint(L) varint(id_0) varint(v_0) ... varint(id_{len-1}) varint(v_{len-1})
+// each in shortest form (== spec_varint_enc), nothing else, L == number of bytes after the Length field
+// == FrameHeader::len() <= MAX_ENCODED_SIZE.  No panic (unwrap, unreachable!, index, overflow).
+#[kani::proof]
+#[kani::unwind(9)]
+fn c13_encode_matches_spec() {
+    let s = any_settings_raw();
+    assume_encodable(&s);
+    let mut sink = PutSink::new();
+    s.encode(&mut sink);
+
+    assert!(sink.n == 2 + 2 * s.len);
+    let mut payload: usize = 0;
+    for8!(i, {
+        if i < s.len {
+            let (id, v) = (s.entries[i].0 .0, s.entries[i].1);
+            assert!(sink.slot[2 + 2 * i] == spec_varint_enc(id));
+            assert!(sink.slot[3 + 2 * i] == spec_varint_enc(v));
+            payload += spec_varint_len(id) + spec_varint_len(v);
+        }
+    });
+    assert!(sink.slot[0] == spec_varint_enc(SPEC_FT_SETTINGS));
+    assert!(sink.slot[1] == spec_varint_enc(payload as u64));
+    assert!(FrameHeader::len(&s) == payload);
+    assert!(payload <= Settings::MAX_ENCODED_SIZE);
+    kani::cover!(s.len == 0);
+    kani::cover!(s.len == 8 && payload == 128);
+    kani::cover!(s.len == 8 && payload == 16);
+    kani::cover!(s.len == 5 && s.entries[4].1 == 16384);
+}
+
+/// encode `s` into a real stack buffer, return (buffer, bytes written)
+fn encode_to_array(s: &Settings) -> ([u8; 40], usize) {
+    let mut arr = [0u8; 40];
     let written;
     {
         let mut w = &mut arr[..];
         s.encode(&mut w);
-        written = 136 - w.len();
+        written = 40 - w.len();
     }
     (arr, written)
 }
 
-fn check_encode(s: &Settings) {
-    let (arr, written) = encode_to_array(s);
-    // an independent SETTINGS parser reads back exactly the stored pairs, in order
+// vp: props=C13,C14; tag=C13.encode.wire; kind=bounded; bound=2 entries; tier=quick
+// the same through the real `&mut [u8]` sink for lists of <= 2 arbitrary pairs: an independent SETTINGS
+// parser reads back exactly the stored pairs in order, all varints shortest form, Length exact.
+// (The 5/6-entry lists h3 really sends are checked this way, unbounded in the values, in config.rs.)
+#[kani::proof]
+#[kani::unwind(9)]
+fn c13_encode_wire_le2() {
+    let s = any_settings_raw();
+    kani::assume(s.len <= 2);
+    assume_encodable(&s);
+    let (arr, written) = encode_to_array(&s);
     match spec_settings_frame_dec(&arr[..written]) {
         None => {
             assert!(false);
@@ -269,81 +394,48 @@ fn check_encode(s: &Settings) {
             assert!(hdr_minimal); // type is the single byte 0x04, Length in shortest form
             assert!(p.minimal); // every id and value in shortest varint form
             assert!(p.n == s.len);
-            let mut i = 0;
-            while i < SETTINGS_LEN {
-                if i < s.len {
-                    assert!(p.pairs[i] == (s.entries[i].0 .0, s.entries[i].1));
-                }
-                i += 1;
+            if s.len > 0 {
+                assert!(p.pairs[0] == (s.entries[0].0 .0, s.entries[0].1));
+            }
+            if s.len > 1 {
+                assert!(p.pairs[1] == (s.entries[1].0 .0, s.entries[1].1));
             }
         }
     }
-    // FrameHeader::len is the payload length, and fits MAX_ENCODED_SIZE
-    let payload = FrameHeader::len(s);
-    assert!(payload <= Settings::MAX_ENCODED_SIZE);
-    assert!(written == 1 + spec_varint_len(payload as u64) + payload);
-    assert!(arr[0] == 0x04);
+    kani::cover!(s.len == 2 && written == 34);
+    kani::cover!(s.len == 0 && written == 2);
 }
 
-fn assume_encodable(s: &Settings) {
-    // precondition of encode: every stored id and value is a varint (< 2^62) — `VarInt::from_u64(..).unwrap()`
-    let mut i = 0;
-    while i < SETTINGS_LEN {
-        if i < s.len {
-            kani::assume(s.entries[i].0 .0 < TWO62 && s.entries[i].1 < TWO62);
-        }
-        i += 1;
-    }
-}
+// ------------------------------------------------------------------------------------------------
+// decode (bounded replay aid; the unbounded statement is the Verus unit's)
 
-// vp: props=C13,C14; tag=C13.encode; kind=complete; tier=quick
-// encode, lists of 0..=4 pairs (any ids / values < 2^62): the bytes are one SETTINGS frame whose
-// independent decoding is exactly the stored pairs in order, shortest-form varints, exact Length.
-#[kani::proof]
-#[kani::unwind(18)]
-fn c13_encode_matches_spec_le4() {
-    let s = any_settings_raw();
-    kani::assume(s.len <= 4);
-    assume_encodable(&s);
-    check_encode(&s);
-    kani::cover!(s.len == 0);
-    kani::cover!(s.len == 4 && s.entries[3].1 == TWO62 - 1);
+fn is_known_lf(id: u64) -> bool {
+    id == SPEC_SETTINGS_QPACK_MAX_TABLE_CAPACITY
+        || id == SPEC_SETTINGS_MAX_FIELD_SECTION_SIZE
+        || id == SPEC_SETTINGS_QPACK_BLOCKED_STREAMS
+        || id == SPEC_SETTINGS_ENABLE_CONNECT_PROTOCOL
+        || id == SPEC_SETTINGS_H3_DATAGRAM
+        || id == SPEC_SETTINGS_ENABLE_WEBTRANSPORT
+        || id == SPEC_SETTINGS_WEBTRANSPORT_MAX_SESSIONS
 }
-
-// vp: props=C13,C14; tag=C13.encode; kind=complete; tier=thorough
-// same for 5..=8 pairs (8 is the capacity of the list — the code's own bound)
-#[kani::proof]
-#[kani::unwind(18)]
-fn c13_encode_matches_spec_gt4() {
-    let s = any_settings_raw();
-    kani::assume(s.len > 4);
-    assume_encodable(&s);
-    check_encode(&s);
-    kani::cover!(s.len == 8 && s.entries[7].0 .0 == TWO62 - 1 && s.entries[0].1 == TWO62 - 1);
-    kani::cover!(s.len == 5);
-}
-
-const KNOWN_FOR_DECODE: [u64; 7] = KNOWN;
 
 fn check_decode(arr: &[u8], len: usize) {
     let mut r: &[u8] = &arr[..len];
     let res = Settings::decode(&mut r);
-    let (verdict, applied) = spec_settings_verdict(&arr[..len], &KNOWN_FOR_DECODE);
+    let (verdict, applied) = spec_settings_verdict(&arr[..len], is_known_lf);
     match verdict {
         SpecSettingsVerdict::Ok => match &res {
             Ok(s) => {
                 // accepted: whole payload read, exactly the understood pairs stored, in wire order
                 assert!(r.is_empty());
                 assert!(s.len == applied.n);
-                assert!(settings_wf(s));
-                let mut i = 0;
-                while i < SETTINGS_LEN {
+                for8!(i, {
                     if i < s.len {
                         assert!((s.entries[i].0 .0, s.entries[i].1) == applied.pairs[i]);
-                        assert!(is_known(s.entries[i].0 .0));
+                    } else {
+                        assert!(s.entries[i] == (SettingId::NONE, 0)); // representation invariant
                     }
-                    i += 1;
-                }
+                });
             }
             Err(_) => {
                 assert!(false);
@@ -359,35 +451,36 @@ fn check_decode(arr: &[u8], len: usize) {
             assert!(res == Err(SettingsError::Repeated(SettingId(id))));
         }
     }
-    assert!(res != Err(SettingsError::Exceeded));
 }
 
 // vp: props=C13,C06; tag=C13.decode; kind=bounded; bound=5 bytes; tier=quick
-// decode on every payload of <= 5 bytes == the wire-order SETTINGS receiver of the spec library
+// decode on every payload of <= 5 bytes == the wire-order SETTINGS receiver of the spec library:
+// Ok <=> whole number of (varint, varint) pairs, no HTTP/2-reserved id, no understood id twice; then the
+// stored list == the understood pairs in wire order, unknown ids ignored, everything consumed;
+// truncated => Malformed; reserved => InvalidSettingId(id); repeat => Repeated(id); no panic.
 #[kani::proof]
-#[kani::unwind(8)]
+#[kani::unwind(5)]
 fn c13_decode_short_5() {
     let arr: [u8; 5] = kani::any();
     let len: usize = kani::any();
     kani::assume(len <= 5);
     check_decode(&arr, len);
-    kani::cover!(len == 5 && arr[0] == 0xab); // the 4-byte id 0x2b603742 + 1-byte value
+    kani::cover!(len == 5 && arr[0] == 0xab); // a 4-byte id + 1-byte value
     kani::cover!(len == 4 && arr[0] == 0x06 && arr[2] == 0x06); // repeat
     kani::cover!(len == 3 && arr[0] == 0x21); // unknown id, then a truncated pair
     kani::cover!(len == 2 && arr[0] == 0x04); // reserved
 }
 
 // vp: props=C13,C06; tag=C13.decode; kind=bounded; bound=8 bytes; tier=thorough
-// the same on every payload of <= 8 bytes (24 bytes is out of Kani's reach; the unbounded statement is
-// the Verus unit's)
+// the same on every payload of <= 8 bytes (24 bytes is out of Kani's reach, DESIGN §2)
 #[kani::proof]
-#[kani::unwind(11)]
+#[kani::unwind(9)]
 fn c13_decode_short_8() {
     let arr: [u8; 8] = kani::any();
     let len: usize = kani::any();
     kani::assume(len <= 8);
     check_decode(&arr, len);
     kani::cover!(len == 8 && arr[0] == 0x06 && arr[2] == 0x08 && arr[4] == 0x33 && arr[6] == 0x01);
-    kani::cover!(len == 8 && arr[0] == 0x21 && arr[2] == 0x21 && arr[4] == 0x21 && arr[6] == 0x21); // same unknown id 4 times
+    kani::cover!(len == 8 && arr[0] == 0x21 && arr[2] == 0x21 && arr[4] == 0x21 && arr[6] == 0x21); // one unknown id 4 times
     kani::cover!(len == 7);
 }
